@@ -9,7 +9,7 @@ Outputs /repo/pkg/procbuilder/verif_contracts_ops.go and verif_harness_ops.go (b
 """
 import re, sys, glob, os, json
 
-PKG = '/repo/pkg/procbuilder'
+PKG = os.environ.get('BMVERIF_REPO', '/repo') + '/pkg/procbuilder'
 only = None
 if '--only' in sys.argv:
     only = set(sys.argv[sys.argv.index('--only') + 1].split(','))
@@ -60,7 +60,9 @@ def fields_of(body):
     """returns (nwords, [(kind, wordidx, widthexpr)]) or None"""
     m = re.search(r'len\(words\) != (\d+)', body)
     if not m:
-        return None
+        if re.search(r'words\[|Process_|Shared_|soLists|strconv\.Atoi|op\.\w+', body):
+            return None
+        return -1, []  # takes no operand and does not look at its arguments
     nwords = int(m.group(1))
     fields = []
     # scan statements in order
@@ -76,6 +78,11 @@ def fields_of(body):
         if not z:
             return None
         target, w = z.group(1), z.group(2).strip()
+        if w not in WIDTHS and not w.isdigit():
+            # a local alias: name := int(arch.X)
+            al = re.search(r'\b%s := (int\(arch\.(?:O|L|R|Rsize)\))\n' % re.escape(w), body)
+            if al and al.group(1) in WIDTHS:
+                w = al.group(1)
         if w not in WIDTHS and not w.isdigit():
             return None
         wexpr = WIDTHS[w][0] if w in WIDTHS else w
@@ -116,7 +123,7 @@ listed = []
 notdone = []
 for f in sorted(glob.glob(PKG + '/op_*.go')):
     src = open(f).read()
-    m = re.search(r'^type (\w+) struct\{\}', src, re.M)
+    m = re.search(r'^type (\w+) struct ?\{', src, re.M)
     if not m:
         continue
     T = m.group(1)
@@ -145,7 +152,10 @@ for f in sorted(glob.glob(PKG + '/op_*.go')):
     c = []
     c.append('//@ func (op %s) Assembler(arch *Arch, words []string) (string, error)' % T)
     c.append('//@   requires wfArch(arch)')
-    c.append('//@   ensures nwords: result1 == nil ==> len(words) == %d' % nwords)
+    if nwords >= 0:
+        c.append('//@   ensures nwords: result1 == nil ==> len(words) == %d' % nwords)
+    else:
+        c.append('//@   ensures zeros: result1 == nil && isbin(result) && val(result) == 0')
     for idx, (kind, k, w) in enumerate(fields):
         lo = offs[idx]
         hi = w if lo == '0' else lo + ' + ' + w
@@ -165,6 +175,8 @@ for f in sorted(glob.glob(PKG + '/op_*.go')):
     cond = 'result1 == nil' + (' && ' + fits if fits else '')
     c.append('//@   ensures width: %s ==> arch.Opcodes_bits() + len(result) == (arch.Max_word() > %s ? arch.Max_word() : %s)' % (cond, nominal, nominal))
     c.append('//@   pure')
+    if nwords < 0:
+        c.append('//@   loop 1: invariant zeros: isbin(result) && val(result) == 0')
     c.append('')
     # Disassembler
     widths_le = ' && '.join('%s <= 62' % w for (kind, k, w) in fields if kind == 'imm')
@@ -225,7 +237,10 @@ for f in sorted(glob.glob(PKG + '/op_*.go')):
             term = 'cat(%s, " ")' % pc if sp else pc
             rtext = term if rtext is None else 'cat(%s, %s)' % (rtext, term)
         # (a disassembler that leaves a trailing blank is harmless to the line reader, which splits on blanks)
-    c.append('//@   ensures result1 ==> len(words) == %d && result == %s' % (nwords, rtext))
+    if nwords >= 0:
+        c.append('//@   ensures result1 ==> len(words) == %d && result == %s' % (nwords, rtext))
+    else:
+        c.append('//@   ensures result1 ==> result == %s' % rtext)
     c.append('')
     contracts.append('\n'.join(c))
     harness.append('''// verifRoundTrip%(T)s: assemble, and when the word has the architecture's width, disassemble again.
